@@ -347,6 +347,25 @@ pub fn check(case: &Case, w: usize) -> CheckResult {
             .class_if(t.keep_mtime, "mtime-preserved")
             .class(if off < 8192 { "offset<8192" } else if off < 16384 { "offset<16384" } else { "offset>=16384" });
     }
+    // generating again from the same source repairs a damaged generated file: afterwards the three
+    // files are what `generate` read and wrote, and everything works
+    {
+        let mut damaged = gen_bytes.clone();
+        damaged.extend_from_slice(b"\n \n");
+        std::fs::write(&gen_path, &damaged).map_err(|e| Inconclusive(e.to_string()))?;
+        let g = env.mr_stdin(&["config", "generate"], &src_bytes);
+        if !g.ok() {
+            return viol_obs("c17.regenerate.failed", "a second `config generate` from the same source failed".into(), g.brief());
+        }
+        let o = env.mr(&["config", "show"]);
+        if !o.ok() {
+            return viol_obs(
+                "c17.untouched.rejected.after-regenerate",
+                "`config show` fails right after a successful `config generate` (the generated file had been damaged before that generate)".into(),
+                o.brief(),
+            );
+        }
+    }
     info.nontrivial = nontrivial;
     Ok(info.inv(env.invocations))
 }
